@@ -11,13 +11,21 @@ def subsets(xs):
             out.append(list(c))
     return out
 
-def case(proto, port, hosts, steps):
-    out = ["res new %s %s" % (proto, port)]
+import os, time
+# ports of this process (observation sockets are bound on them; concurrent checks must not collide)
+PBASE = 26000 + ((int(time.time()) * 13 + os.getpid() * 7) % 18000)
+PORTS = {"5080": str(PBASE), "6090": str(PBASE + 1), "5060": str(PBASE + 2), "5070": str(PBASE + 3)}
+
+def case(proto, port, hosts, steps, disp=None):
+    """disp: positions after which one full dispatch round is observed on the wire (udp only)"""
+    out = ["res new %s %s" % (proto, PORTS[port])]
     for h in hosts:
         out.append("res host %s" % hx(h))
-    for (h, o) in steps:
+    for i, (h, o) in enumerate(steps):
         if o is None: out.append("res fail %s" % hx(h))
         else: out.append(("res ok %s " % hx(h) + " ".join(hx(x) for x in o)).rstrip())
+        if proto == "udp" and (disp is None and i == len(steps) - 1 or disp is not None and i in disp):
+            out.append("res disp")
     out.append("res close")
     return out
 
@@ -37,7 +45,7 @@ def generate(seed, tier):
         for s0 in subsets(IPS[:2]):
             for s1 in subsets(IPS[:2]):
                 steps = [("svc.test", s0)] + [("svc.test", None)] * k + [("svc.test", s1)] + [("svc.test", None)] * 5
-                lines += case("udp", "5080", ["svc.test"], steps)
+                lines += case("udp", "5080", ["svc.test"], steps, disp={0, k, k + 1, k + 6})
                 g.count("failure_run_cases")
     for _ in range(150 if tier == "quick" else 2000):
         two = g.chance(0.4)
@@ -48,16 +56,15 @@ def generate(seed, tier):
             pool = IPS if not two else (IPS[:3] if h == "svc.test" else IPS[3:])
             if g.chance(0.45): steps.append((h, None))
             else: steps.append((h, [x for x in pool if g.chance(0.5)]))
-        lines += case(g.pick(["udp", "tcp"]), g.pick(["5080", "6090"]), hosts, steps)
+        lines += case(g.pick(["udp", "tcp"]), g.pick(["5080", "6090"]), hosts, steps, disp={i for i in range(len(steps)) if g.chance(0.3)} | {len(steps) - 1})
         g.count("random_histories")
     # the rotation built by the real CreateRoundRobinBackend from host names (one or two names, same or
     # different ports); host names are unique per case because the package-level resolver keeps them
-    import os, time
     nonce = "%x" % ((int(time.time()) * 1000 + os.getpid()) % (1 << 32))
     for k in range(60 if tier == "quick" else 1500):
         two = g.chance(0.7)
         ha = "a%s-%d.invalid" % (nonce, k); hb = "b%s-%d.invalid" % (nonce, k)
-        pa = g.pick(["5060", "5070"]); pb = g.pick(["5060", "5070", "5080"]) if two else None
+        pa = PORTS[g.pick(["5060", "5070"])]; pb = PORTS[g.pick(["5060", "5070", "5080"])] if two else None
         hosts = [(ha, pa)] + ([(hb, pb)] if two else [])
         proto = g.pick(["udp", "tcp"])
         lines.append("res2 new %s %s %s" % (proto, nonce, " ".join(hx("%s:%s" % h) for h in hosts)))
@@ -70,6 +77,10 @@ def generate(seed, tier):
                 lines.append("res2 fail %s" % hx(h))
             else:
                 lines.append(("res2 ok %s " % hx(h) + " ".join(hx(x) for x in pool if g.chance(0.6))).rstrip())
+            if proto == "udp" and g.chance(0.5):
+                lines.append("res2 disp")
+        if proto == "udp":
+            lines.append("res2 disp")
         lines.append("res close")
         g.count("create_rr_cases")
     return lines, g.stats
